@@ -18,7 +18,8 @@ from .cast import FrontEndError, load_tu, REPO, VERIF
 from .solve import discharge, to_smt2
 from .verify import verify_function
 
-EVID = os.path.join(VERIF, 'evidence')
+# VERIF_EVIDENCE_DIR: seeding/mutation tools redirect evidence of runs on changed trees away from the committed files
+EVID = os.environ.get('VERIF_EVIDENCE_DIR') or os.path.join(VERIF, 'evidence')
 REPLAY = os.path.join(VERIF, 'replay')
 KNOWN = os.path.join(VERIF, 'known_findings.json')
 
